@@ -89,6 +89,12 @@ fn instantiate(pos: usize, witness: &str) -> String {
     format!("lru_mem::LruCache<{}, {}, {}>", p[0], p[1], p[2])
 }
 
+/// The crate the probe programs are compiled against: /repo, unless a scratch
+/// copy is named (used only when seeded changes are evaluated off to the side).
+pub fn repo_path() -> std::path::PathBuf {
+    std::path::PathBuf::from(std::env::var("VERIF_REPO").unwrap_or_else(|_| "/repo".to_string()))
+}
+
 pub fn trait_probes(seed: u64, extra_nestings: usize) -> Vec<Probe> {
     let mut rng = Rng(seed ^ 0x18);
     let mut out = Vec::new();
@@ -149,6 +155,19 @@ pub fn trait_probes(seed: u64, extra_nestings: usize) -> Vec<Probe> {
             let t = nest(&mut rng, w, level);
             add(format!("T-neg-Sync-{}-nested{}", pname, n), true, Some(mention.to_string()),
                 format!("pub fn probe() {{ need_sync::<{}>() }}", instantiate(pos, &t)));
+        }
+    }
+    // the borrowing iterators are shared borrows of the cache that hand out
+    // &K / &V: whatever they implement, moving one to another thread must need
+    // K and V to be Sync (a Send-only witness separates the two)
+    for it in ["Iter", "Keys", "Values"] {
+        for (i, w) in ["std::cell::Cell<u8>", "std::cell::RefCell<String>"].iter().enumerate() {
+            add(format!("T-neg-Send-{}-K-sendonly{}", it, i), true, None,
+                format!("pub fn probe() {{ need_send::<lru_mem::{}<'static, {}, u8>>() }}", it, w));
+            add(format!("T-neg-Send-{}-V-sendonly{}", it, i), true, None,
+                format!("pub fn probe() {{ need_send::<lru_mem::{}<'static, u8, {}>>() }}", it, w));
+            add(format!("T-neg-Sync-{}-V-sendonly{}", it, i), true, None,
+                format!("pub fn probe() {{ need_sync::<lru_mem::{}<'static, u8, {}>>() }}", it, w));
         }
     }
     out
